@@ -235,6 +235,11 @@ func (d *Decoder) decompress(claimedUncompressedSize int, rd io.Reader) (decompr
 	if err != nil {
 		return nil, fmt.Errorf("error decompressing payload: %w", err)
 	}
+	// The body must inflate to exactly the claimed size.
+	var extra [1]byte
+	if n, _ := io.ReadFull(d.zrd, extra[:]); n != 0 {
+		return nil, errs.NewSilentErr("uncompressed size exceeds claimed size %d", claimedUncompressedSize)
+	}
 	return decompressed, d.zrd.Close()
 }
 
